@@ -28,27 +28,34 @@ type refDesc struct {
 }
 
 type caseRec struct {
-	ID    string    `json:"id"`
-	Kind  string    `json:"kind"`
-	Type  string    `json:"type"`
-	Rid   string    `json:"rid"`
-	Ver   string    `json:"ver"`
-	Base  string    `json:"base"`
-	Ridc  string    `json:"ridc"`
-	Verc  string    `json:"verc"`
-	Basec string    `json:"basec"`
-	X     string    `json:"x"`
-	Text  string    `json:"text"`
-	Rel   string    `json:"rel"`
-	Valid bool      `json:"valid"`
-	Refs  []refDesc `json:"refs,omitempty"`
+	ID    string `json:"id"`
+	Kind  string `json:"kind"`
+	Type  string `json:"type"`
+	Rid   string `json:"rid"`
+	Ver   string `json:"ver"`
+	Base  string `json:"base"`
+	Ridc  string `json:"ridc"`
+	Verc  string `json:"verc"`
+	Basec string `json:"basec"`
+	X     string `json:"x"`
+	Den   struct {
+		Text  string    `json:"text"`
+		Rel   string    `json:"rel"`
+		Valid bool      `json:"valid"`
+		Refs  []refDesc `json:"refs"`
+	} `json:"den"`
+	// copied from Den (TLC-generated cases) or set directly (raw cases)
+	Text  string    `json:"-"`
+	Rel   string    `json:"-"`
+	Valid bool      `json:"-"`
+	Refs  []refDesc `json:"-"`
 	ci    int
 }
 
 // echo is the part of a case every observation carries back to the judge.
 func (c *caseRec) echo() map[string]any {
 	return map[string]any{"id": c.ID, "kind": c.Kind, "type": c.Type, "rid": c.Rid, "ver": c.Ver, "base": c.Base,
-		"ridc": c.Ridc, "verc": c.Verc, "basec": c.Basec, "x": c.X, "text": c.Text, "rel": c.Rel}
+		"ridc": c.Ridc, "verc": c.Verc, "basec": c.Basec, "x": c.X, "text": c.Text}
 }
 
 func main() {
@@ -76,6 +83,7 @@ func main() {
 		if err := json.Unmarshal(b, c); err != nil {
 			return err
 		}
+		c.Text, c.Rel, c.Valid, c.Refs = c.Den.Text, c.Den.Rel, c.Den.Valid, c.Den.Refs
 		c.ci = len(cases) + 1
 		cases = append(cases, c)
 		return nil
@@ -97,6 +105,7 @@ func main() {
 	lib.ParallelMap(len(cases), runtime.NumCPU(), func(i int) {
 		c := cases[i]
 		for _, rec := range observe(c) {
+			compact(rec)
 			rec["id"] = c.ID + "@" + rec["aspect"].(string)
 			rec["cs"] = c.echo()
 			rec["ci"] = c.ci
@@ -130,4 +139,32 @@ func observe(c *caseRec) []map[string]any {
 	}
 	lib.Fatal("unknown case kind %q", c.Kind)
 	return nil
+}
+
+// compact drops what the judge never reads: a probe that did not return a
+// value keeps only its kind (and where it failed); the message and site of a
+// successful probe are empty anyway.
+func compact(rec map[string]any) {
+	for k, v := range rec {
+		p, ok := v.(P)
+		if !ok {
+			continue
+		}
+		if p["k"] == "ok" {
+			delete(p, "msg")
+			delete(p, "site")
+			continue
+		}
+		q := P{"k": p["k"]}
+		if b, ok := p["b"]; ok {
+			q["b"] = b
+		}
+		if m, _ := p["msg"].(string); m != "" {
+			q["msg"] = m
+		}
+		if s, _ := p["site"].(string); s != "" {
+			q["site"] = s
+		}
+		rec[k] = q
+	}
 }
